@@ -65,7 +65,7 @@ PROBES = ['replies_reordered', 'replies_held_late', 'handle_sequences',
           'storage_partial_write', 'storage_full', 'size_withheld_refused',
           'copy_into_itself', 'sparse_copy', 'hole_layouts',
           'trailing_hole', 'read_without_block_size',
-          'source_truncated_under_real_server']
+          'source_truncated_under_real_server', 'copy_onto_itself']
 
 _base = [None]
 
@@ -107,6 +107,9 @@ def gen_plan(rng):
 
         if kind == 'selfcopy':
             op['off'] = rng.choice([1, 1, size // 2 + 1, size])
+
+        if kind == 'copy' and rng.chance(10):
+            op['onto_itself'] = 'same'
 
         if kind == 'read':
             op['off'] = rng.choice([0, 0, 1, size // 2, size, size + 5])
@@ -589,6 +592,13 @@ def run_plan(plan, sched_seed=None, sched_replay=None):
                     else:
                         set_remote(rname, src)
 
+                    if op.get('onto_itself'):
+                        # the destination the call resolves to is the source
+                        # itself: refused, or at least harmless
+                        sim.probes['copy_onto_itself'] += 1
+                        rname2 = rname
+                        rec['onto_itself'] = True
+
                     await sftp.copy(rname, rname2, block_size=bs,
                                     max_requests=mr, sparse=plan['sparse'])
                     got = remote_bytes(rname2)
@@ -828,6 +838,9 @@ def run_plan(plan, sched_seed=None, sched_replay=None):
                     # without a size the client may refuse; it must not
                     # invent one
                     sim.probes['size_withheld_refused'] += 1
+                elif rec.get('onto_itself'):
+                    # refusing to copy a file onto itself is fine
+                    pass
                 elif not rec['error_injected'] and not rec['early_eof'] and \
                         not rec['disk_full'] and not (s and s.bad_replies):
                     world.violation(
